@@ -194,11 +194,13 @@ func ruleChainOnlyWraps(c *Ctx, rule string) {
 	// nested statements' IsWait flags are not rewritten outside Build
 	all := storesToField(pkgFuncs(L, genPkg), "internal/kessoku.InjectorCallArgument.IsWait")
 	for _, st := range all {
-		top := st.Parent()
-		for top.Parent() != nil {
-			top = top.Parent()
+		inBuild := false
+		for _, f := range family(L, resolveRole(c, genPkg, "(*Graph).Build")) {
+			if f == st.Parent() {
+				inBuild = true
+			}
 		}
-		c.check(top.Name() == "Build", rule, fnName(st.Parent())+":writes-IsWait", L.pos(st.Pos()), "wait flags are decided in Graph.Build only", fnName(st.Parent()))
+		c.check(inBuild, rule, fnName(st.Parent())+":writes-IsWait", L.pos(st.Pos()), "wait flags are decided in Graph.Build only", fnName(st.Parent()))
 	}
 }
 
@@ -234,7 +236,7 @@ func ruleTypeIdentity(c *Ctx, rule string, pkgs ...string) {
 	// the error result of a provider is recognised with types.Identical against the universe's error
 	if fn := resolveRole(c, genPkg, "(*Parser).parseProviderType"); fn != nil && len(pkgs) > 0 && pkgs[0] == genPkg {
 		ok := false
-		for _, f2 := range withClosures(fn) {
+		for _, f2 := range family(L, fn) {
 			for _, cs := range callsIn(f2) {
 				if cs.callee == "go/types.Identical" {
 					s := newSym(L, map[string]bool{})
